@@ -18,10 +18,10 @@ def _kind(draw, first=False):
     return "var" if first else draw(st.sampled_from(["var", "var", "var", "const", "array"]))
 
 
-def _leaf(b, draw, shape, first=False, lo=-40, hi=40):
+def _leaf(b, draw, shape, first=False, lo=-40, hi=40, dtype="float64"):
     kind = _kind(draw, first)
     layout = draw(st.sampled_from(LAYOUTS)) if len(shape) >= 1 and int(np.prod(shape)) > 0 else None
-    return b.leaf(kind, list(shape), layout=layout, lo=lo, hi=hi)
+    return b.leaf(kind, list(shape), layout=layout, lo=lo, hi=hi, dtype=dtype)
 
 
 def _dims(draw, nsp):
@@ -92,8 +92,11 @@ def layer_cases(draw, names=None):
     elif name == "gru":
         T, N, C, D = d(st.integers(1, 3)), d(st.integers(1, 2)), d(st.integers(1, 2)), d(st.integers(1, 3))
         args = [_leaf(b, d, [T, N, C], first=True, lo=-16, hi=16)]
+        mixed = d(st.integers(0, 2)) == 0  # parameters of individually drawn precision (each gradient keeps its own dtype)
         for _ in range(3):
-            args += [_leaf(b, d, [C, D], lo=-16, hi=16), _leaf(b, d, [D, D], lo=-16, hi=16), _leaf(b, d, [D], lo=-16, hi=16)]
+            dts = [d(st.sampled_from(["float64", "float32"])) if mixed else "float64" for _ in range(3)]
+            args += [_leaf(b, d, [C, D], lo=-16, hi=16, dtype=dts[0]), _leaf(b, d, [D, D], lo=-16, hi=16, dtype=dts[1]),
+                     _leaf(b, d, [D], lo=-16, hi=16, dtype=dts[2])]
         if d(st.booleans()):
             # (gru documents/raises: the seed state must not be a non-constant tensor)
             args.append(b.leaf(d(st.sampled_from(["const", "array"])), [N, D], lo=-16, hi=16))
